@@ -81,9 +81,9 @@ def overlaySrc (V bbox : Rect) (x y : Int) (shape alpha : Rat) (e : Overlay) : P
   { mode := e.mode, color := pasteAt V bbox x y e.color white, shape := shape * overlayShape V bbox x y e,
     alpha := alpha * overlayShape V bbox x y e * e.opacity, ko := false }
 
-def strokeFxSrc (V bbox : Rect) (x y : Int) (s : StrokeFx) : PSrc :=
+def strokeFxSrc (V bbox : Rect) (x y : Int) (lop : Rat) (s : StrokeFx) : PSrc :=
   { mode := s.mode, color := pasteAt V bbox x y s.color black, shape := pasteAt V bbox x y (s.shape V) 0,
-    alpha := pasteAt V bbox x y (s.shape V) 0 * s.opacity, ko := false }
+    alpha := pasteAt V bbox x y (s.shape V) 0 * (s.opacity * lop), ko := false }
 
 theorem applyOverlays_eq (B : Mode → Color → Color → Color) (V bbox : Rect) (x y : Int) (shape alpha : Rat) (st : PState)
     (es : List Overlay) :
@@ -92,8 +92,9 @@ theorem applyOverlays_eq (B : Mode → Color → Color → Color) (V bbox : Rect
   | nil => rfl
   | cons e es ih => simp only [applyOverlays, List.map_cons, applySrcs, overlaySrc]; exact ih _
 
-theorem applyStrokeFx_eq (B : Mode → Color → Color → Color) (V bbox : Rect) (x y : Int) (st : PState) (ss : List StrokeFx) :
-    applyStrokeFx B V bbox x y st ss = applySrcs B st (ss.map (strokeFxSrc V bbox x y)) := by
+theorem applyStrokeFx_eq (B : Mode → Color → Color → Color) (V bbox : Rect) (x y : Int) (lop : Rat) (st : PState)
+    (ss : List StrokeFx) :
+    applyStrokeFx B V bbox x y lop st ss = applySrcs B st (ss.map (strokeFxSrc V bbox x y lop)) := by
   induction ss generalizing st with
   | nil => rfl
   | cons s ss ih => simp only [applyStrokeFx, List.map_cons, applySrcs, strokeFxSrc]; exact ih _
@@ -113,7 +114,7 @@ def ownSrc (force : Bool) (V : Rect) (x y : Int) (pr : Props) (fx : Fx) (color :
 /-- the sources after the layer's own: one per overlay effect, one per stroke effect -/
 def fxSrcs (force : Bool) (V : Rect) (x y : Int) (pr : Props) (fx : Fx) (shape alpha : Rat) : List PSrc :=
   fx.overlays.map (overlaySrc V pr.bbox x y (maskedShape force V x y pr fx shape) (maskedAlpha force V x y pr fx alpha))
-    ++ fx.strokeFx.map (strokeFxSrc V pr.bbox x y)
+    ++ fx.strokeFx.map (strokeFxSrc V pr.bbox x y pr.opacity)
 
 /-- **`finishFx` is the layer's own source followed by one ordinary source per effect.** -/
 theorem finishFx_eq (B : Mode → Color → Color → Color) (force : Bool) (V : Rect) (x y : Int) (st : PState) (pr : Props)
@@ -182,12 +183,14 @@ theorem overlaySrc_ok {e : Overlay} (h : OverlayOk e) (V bbox : Rect) (x y : Int
       _ ≤ shape * overlayShape V bbox x y e := mul_le_mul_of_nonneg_right has s0
   · exact (unit01_mul ⟨le_trans ha0 has, hs1⟩ ⟨s0, s1⟩).2
 
-theorem strokeFxSrc_ok {s : StrokeFx} (h : StrokeFxOk s) (V bbox : Rect) (x y : Int) : (strokeFxSrc V bbox x y s).Ok := by
+theorem strokeFxSrc_ok {s : StrokeFx} (h : StrokeFxOk s) (V bbox : Rect) (x y : Int) {lop : Rat} (hl : Unit01 lop) :
+    (strokeFxSrc V bbox x y lop s).Ok := by
   obtain ⟨s0, s1⟩ := pasteAt_unit (V := V) (b := bbox) (x := x) (y := y) (h.shape V) unit01_zero
-  obtain ⟨o0, o1⟩ := h.opacity
+  obtain ⟨o0, o1⟩ := unit01_mul h.opacity hl
   refine ⟨mul_nonneg s0 o0, ?_, s1, pasteAt_color h.color black_ok⟩
-  show pasteAt V bbox x y (s.shape V) 0 * s.opacity ≤ pasteAt V bbox x y (s.shape V) 0
-  calc pasteAt V bbox x y (s.shape V) 0 * s.opacity ≤ pasteAt V bbox x y (s.shape V) 0 * 1 := mul_le_mul_of_nonneg_left o1 s0
+  show pasteAt V bbox x y (s.shape V) 0 * (s.opacity * lop) ≤ pasteAt V bbox x y (s.shape V) 0
+  calc pasteAt V bbox x y (s.shape V) 0 * (s.opacity * lop) ≤ pasteAt V bbox x y (s.shape V) 0 * 1 :=
+        mul_le_mul_of_nonneg_left o1 s0
     _ = _ := mul_one _
 
 theorem fxSrcs_ok (force : Bool) {pr : Props} {fx : Fx} (hp : PropsOk pr) (hf : FxOk fx) (V : Rect) (x y : Int)
@@ -200,7 +203,7 @@ theorem fxSrcs_ok (force : Bool) {pr : Props} {fx : Fx} (hp : PropsOk pr) (hf : 
   · obtain ⟨e, he, rfl⟩ := List.mem_map.1 h
     exact overlaySrc_ok (hf.overlays e he) V pr.bbox x y b0 b1 b2
   · obtain ⟨t, ht, rfl⟩ := List.mem_map.1 h
-    exact strokeFxSrc_ok (hf.strokeFx t ht) V pr.bbox x y
+    exact strokeFxSrc_ok (hf.strokeFx t ht) V pr.bbox x y hp.opacity
 
 /-! ### invariants through a list of sources -/
 
